@@ -1026,3 +1026,9 @@ V("pop-previous-sentinel-untested", "break", ["C16"], PR, "    if previous_prop_
   "the -1 'no previous propagator' sentinel indexes the queue (outside it for a model without constraints)", "pop_propagator", expect_rule="R-EXTENT")
 V("pop-previous-sentinel-ge0", "neutral", ["C16", "C01", "C08"], PR, "    if previous_prop_idx != -1 and triggered_propagators[previous_prop_idx]:\n",
   "    if previous_prop_idx >= 0 and triggered_propagators[previous_prop_idx]:\n", "the sentinel excluded by a sign test")
+# ---- R-COST-TABLE column through a slice (round 6, C16-x3)
+V("mincost-row-sliced-absolute-index", "break", ["C16"], H + "min_cost_dom_heuristic.py", None, None, "the cost row narrowed to the domain's slice but still indexed by the absolute value",
+  "min_cost_dom_heuristic", expect_rule="R-COST-TABLE",
+  edits=[{"old": "        cost = params[dom_idx][value]\n", "new": "        cost = params[dom_idx, shr_domain[MIN] : shr_domain[MAX] + 1][value]\n"}])
+V("mincost-row-sliced-relative-index", "neutral", ["C16", "C09", "C02"], H + "min_cost_dom_heuristic.py", None, None, "the same slice indexed by value - minimum",
+  edits=[{"old": "        cost = params[dom_idx][value]\n", "new": "        cost = params[dom_idx, shr_domain[MIN] : shr_domain[MAX] + 1][value - shr_domain[MIN]]\n"}])
